@@ -90,6 +90,13 @@ impl Reporter {
         }
     }
 
+    /// Read-only view of the merged per-client entries, for the runtime-verification
+    /// harness (built with --cfg roughenough_verif)
+    #[cfg(roughenough_verif)]
+    pub fn verif_merged(&self) -> impl Iterator<Item = &ClientStats> {
+        self.client_stats.values()
+    }
+
     pub fn report(&mut self) {
         let start = Instant::now();
 
